@@ -514,6 +514,9 @@ impl Val {
             Val::FloatA(v) => v.len() == 1 && v[0].is_none(),
             Val::CharA(v) => v.len() == 1 && v[0].is_none(),
             Val::StrA(v) => v.len() == 1 && v[0].is_none(),
+            // a haploid genotype whose allele is missing is written `.`, the missing value; a
+            // genotype without alleles has no text at all and is stored as an empty vector
+            Val::Gt(v) => v.is_empty() || (v.len() == 1 && v[0].0.is_none()),
             _ => false,
         }
     }
@@ -561,12 +564,25 @@ pub enum Expect {
     /// Not a valid / representable value: `Err` at write or read time, or an exact round trip,
     /// are all accepted; a silently different value or a panic is not.
     MayReject(&'static str),
+    /// Not a VCF value at all (empty array, empty string, END before POS): the statements say
+    /// nothing about it; only a panic is judged.
+    Unjudged(&'static str),
 }
 
 impl Expect {
     pub fn weaken(&mut self, why: &'static str) {
         if *self == Expect::Exact {
             *self = Expect::MayReject(why);
+        }
+    }
+    pub fn unjudge(&mut self, why: &'static str) {
+        *self = Expect::Unjudged(why);
+    }
+    pub fn merge(&mut self, other: &Expect) {
+        match other {
+            Expect::Exact => {}
+            Expect::MayReject(w) => self.weaken(w),
+            Expect::Unjudged(w) => self.unjudge(w),
         }
     }
 }
